@@ -14,6 +14,7 @@ import itertools
 import json
 import os
 import random
+import re
 import signal
 import sys
 import threading
@@ -32,6 +33,9 @@ FIN_TIMEOUT = 0.05     # the "finite timeout" handed to *_wait / close (workers 
 FREE_TIMEOUT = 0.4     # the same in free-running mode (no quiescence control: generous against scheduling noise)
 FREE_PAUSE = 0.12      # free-running mode: pause between operations
 FREE_WAKE = 0.8        # free-running mode: a blocked call lets sleeping workers wake up after this long
+# number of exception kinds injected: 0-3 have one-argument constructors; 4 (UnicodeDecodeError) and 5 (a user type
+# with a two-argument constructor) need the worker's exception instance to be re-raised as it is
+NEXC = int(os.environ.get("C13_NEXC", "6"))
 FORBIDDEN_CALLS = ("reset", "step", "close", "_setattr", "_check_spaces")
 KINDS = ("reset", "step", "call")
 
@@ -326,7 +330,7 @@ def classify_exc(e):
         return "Timeout", None
     if isinstance(e, (EOFError, ConnectionError)):
         return "Gone", None
-    if isinstance(e, AttributeError) and "'NoneType' object" in str(e):
+    if isinstance(e, AttributeError) and re.search(r"'NoneType' object has no attribute '(send|recv|close|poll|closed)'", str(e)):
         return "Attr", None               # a dropped pipe (parent_pipes[i] = None) was used
     # an exception that travelled from a worker: the injected ones say so, the worker's own ValueError for a
     # forbidden `call` name is recognised by its text; the same types raised by the parent's own code are "Other"
@@ -508,20 +512,19 @@ class C13(vlib.Driver):
         quick = tier == "quick"
         self.exhaustive = True
         self.notes = ["exhaustive sub-runs: family `misuse` (all call sequences up to length %d over the reduced alphabet, no faults) and "
-                      "family `fault-exhaustive` (all sequences up to length %d under 5 elementary fault plans); the other families are "
+                      "family `fault-exhaustive` (all sequences up to length %d under elementary fault plans); the other families are "
                       "sampled / seeded" % ((3, 2) if quick else (4, 3)),
                       "family `free` runs without the harness proxies (real interleavings) and is judged by the oracle only"]
         normal = lambda n: [[] for _ in range(n)]
         # (A) misuse: every sequence over the reduced alphabet, no faults — exhaustive
         alpha = [["async", "reset"], ["async", "step"], ["async", "call"], ["wait", "reset", False], ["wait", "step", True],
                  ["wait", "call", False], ["setattr"], ["close", False, False]]
-        maxlen = 3 if quick else 4
-        for n in ([2] if quick else [1, 2]):
+        for n, maxlen in ([(2, 3)] if quick else [(1, 3), (2, 4)]):
             for L in range(1, maxlen + 1):
                 for seq in itertools.product(alpha, repeat=L):
                     cases.append({"plans": normal(n), "ops": legal_close([list(o) for o in seq]), "fam": "misuse"})
         # (B) one fault (plus optionally a second one in another worker) at a chosen command, every command kind
-        faults = [["raise", 0], ["raise", 1], ["raise", 2], ["raise", 3], ["sleep"], ["die"]]
+        faults = [["raise", x] for x in range(NEXC)] + [["sleep"], ["die"]]
         closes = [[False, False], [True, False], [False, True]]
         fam_b = []
         for n in (2, 3):
@@ -534,7 +537,7 @@ class C13(vlib.Driver):
                                     for other in (None, ["raise", 2], ["sleep"], ["die"]):
                                         fam_b.append((n, kind, b, w, at, fin, cl, other))
         rng.shuffle(fam_b)
-        take = 170 if quick else 2200
+        take = 170 if quick else 1200
         for (n, kind, b, w, at, fin, cl, other) in fam_b[:take]:
             plans = [[["normal"]] * at for _ in range(n)]
             plans[w] = plans[w] + [b]
@@ -565,7 +568,7 @@ class C13(vlib.Driver):
                             for cl in closes:
                                 fam_c.append((n, kind, w, where, fin, cl))
         rng.shuffle(fam_c)
-        for (n, kind, w, where, fin, cl) in fam_c[: (60 if quick else 400)]:
+        for (n, kind, w, where, fin, cl) in fam_c[: (60 if quick else 300)]:
             ops = [["async", "reset"], ["wait", "reset", False]]
             if where == "before-async":
                 ops += [["kill", w], ["async", kind], ["wait", kind, fin]]
@@ -581,7 +584,7 @@ class C13(vlib.Driver):
         full = alpha + [["wait", "reset", True], ["wait", "step", False], ["wait", "call", True], ["callbad"], ["release"],
                         ["kill", 0], ["kill", 1], ["close", True, False], ["close", False, True]]
         weights = [4, 4, 4, 3, 3, 3, 2, 1, 3, 3, 3, 1, 3, 1, 1, 1, 1]
-        for i in range(90 if quick else 1500):
+        for i in range(90 if quick else 800):
             n = rng.choice([1, 2, 2, 3])
             plans = []
             for j in range(n):
@@ -589,7 +592,7 @@ class C13(vlib.Driver):
                 for c in range(rng.randint(0, 4)):
                     r = rng.random()
                     p.append(["normal"] if r < 0.45 else ["sleep"] if r < 0.7 else ["die"] if r < 0.78
-                             else ["raise", rng.randrange(4)])
+                             else ["raise", rng.randrange(NEXC)])
                 plans.append(p)
             ops, pend, killed = [], None, False
             for _ in range(rng.randint(3, 8)):
@@ -610,17 +613,17 @@ class C13(vlib.Driver):
             cases.append({"plans": plans, "ops": legal_close(ops), "fam": "random"})
         # (F) every short sequence over the reduced alphabet (+ release) under each elementary fault plan — exhaustive
         alpha_f = alpha + [["release"], ["wait", "reset", True]]
-        plans_f = [[[["raise", 1]], []], [[], [["raise", 3]]], [[["sleep"]], []], [[], [["die"]]],
+        plans_f = [[[["raise", NEXC - 3]], []], [[], [["raise", NEXC - 1]]], [[["sleep"]], []], [[], [["die"]]],
                    [[["normal"], ["raise", 0]], [["normal"], ["sleep"]]]]
-        for plans in plans_f:
-            for L in range(1, (2 if quick else 3) + 1):
+        for pi, plans in enumerate(plans_f):
+            for L in range(1, (2 if (quick or pi in (1, 3)) else 3) + 1):
                 for seq in itertools.product(alpha_f, repeat=L):
                     cases.append({"plans": plans, "ops": legal_close([list(o) for o in seq]), "fam": "fault-exhaustive"})
         # (E) free-running (no proxies, real interleavings of concurrently failing workers): oracle only
         fam_e = []
         for kind in KINDS:
             for cl in closes:
-                fam_e.append(([[["raise", 1]], [["raise", 2]], [["raise", 3]]], [["async", kind], ["wait", kind, False], ["async", "reset"], ["close"] + cl]))
+                fam_e.append(([[["raise", 1]], [["raise", NEXC - 2]], [["raise", NEXC - 1]]], [["async", kind], ["wait", kind, False], ["async", "reset"], ["close"] + cl]))
                 fam_e.append(([[["normal"], ["raise", 0]], [["normal"], ["die"]], []],
                               [["async", "reset"], ["wait", "reset", False], ["async", kind], ["wait", kind, True], ["close"] + cl]))
                 fam_e.append(([[["sleep"]], [["raise", 3]]], [["async", kind], ["wait", kind, True], ["wait", kind, False], ["close"] + cl]))
